@@ -7,12 +7,17 @@ from common import *
 LEVEL = "other"
 EXPLANATION = ("mirsym Mode B over the MIR of data::sha256::ShaGenerator::finalize: every Ok return is preceded by sha2's Digest::finalize, "
                "i.e. the recorded SHA-256 is always the digest of the bytes hashed so far (in particular of the empty string for a file "
-               "that never produced a chunk). The xorb / file-record consistency obligations of this property are decided where they "
-               "can be: chunk header and xorb format (C07), hash construction agreement (C06), metrics and limits (C14, C15); the "
-               "segment bookkeeping of FileDeduper could not be brought through CBMC (see DESIGN.md section 6) and is outside this claim.")
-BOUNDS = "all control-flow paths of ShaGenerator::finalize"
+               "that never produced a chunk). mirsym Mode A single-step obligations on FileDeduper's open-xorb bookkeeping (the part of "
+               "'every file record references stored chunks with the right byte counts' that is a local fact): cutting a xorb resets the "
+               "chunk buffer, byte counter, hash lookup and placeholder registry and gives every registered segment the xorb's hash; "
+               "appending a chunk adds its length to the byte counter, registers it under its own index and registers the placeholder "
+               "segment; a self-referencing segment is registered for resolution; the byte count of an in-xorb run is the sum of the "
+               "referenced chunks' lengths (C14's obligation, re-used). The end-to-end statement over arbitrary dedup structures could not "
+               "be brought through CBMC (DESIGN.md 6.2) and is outside; violations are confirmed natively by an independent validator of "
+               "everything a session stored.")
+BOUNDS = "all control-flow paths of ShaGenerator::finalize; all paths of cut_new_xorb / add_file_data_sequence_entry; one iteration of process_chunks' result loop and of the run-length loop from an arbitrary state"
 ASSUMPTIONS = ["sha2::Sha256 computes SHA-256 (third party)", "the hasher tasks hand the hasher state on unchanged (tokio JoinHandle contract)"]
-OUTSIDE = ["FileDeduper segment bookkeeping / verification hashes over arbitrary dedup structures (hashbrown + symbolic vector lengths do not get through CBMC; measured)",
+OUTSIDE = ["the global invariant tying file segments to xorb contents over whole histories (hashbrown + symbolic vector lengths do not get through CBMC; measured); verification hashes; xorb naming (C06 not claimed)",
            "the stores"]
 
 
@@ -43,5 +48,6 @@ def replay(model, fnd, prop):
     return None, path, "native replay inconclusive (rc=%s)" % rc
 
 
-SMT = [Q("c02_sha_must_call", "recorded SHA-256 is always a digest", "data", build, functions=["data::sha256::ShaGenerator::finalize"], bounds="all CFG paths",
+from props import dedup_book as _db, c14 as _c14
+SMT = [_db.Q_CUT, _db.Q_REG, _db.Q_APP] + [q for q in _c14.SMT if q.name == "c14_local_run_bytes"] + [Q("c02_sha_must_call", "recorded SHA-256 is always a digest", "data", build, functions=["data::sha256::ShaGenerator::finalize"], bounds="all CFG paths",
          replay=replay, solvers=("z3", "cvc5-bv"))]
